@@ -61,6 +61,25 @@ def run_A(ctx, module, name, consts, invariants=(), properties=(), simulate=None
         ctx.cov['stages'].append({'stage': name, 'data_race': True})
         p1.kill()
         return
+    if p2.returncode == 2 and re.search(r'^fatal error: |^runtime: goroutine stack exceeds', err, re.M):
+        # the Go runtime killed the process (stack overflow, concurrent map access, ...): recover() cannot catch that.
+        # Find the input: run the stage again with a journal, then try the journalled lines one at a time.
+        p1.kill()
+        culprit = find_crash_input(ctx, name, ['timeout', str(timeout)] + tlc, rargs, renv)
+        if culprit is None:
+            raise Broken('stage %s: the replayer died with a fatal runtime error that could not be reproduced on a single input: %s'
+                         % (name, err[:1500]))
+        line, crash = culprit
+        os.makedirs(REPLAYS, exist_ok=True)
+        import hashlib
+        path = os.path.join(REPLAYS, '%s-crash-%s.json' % (ctx.prop, hashlib.sha1(line.encode()).hexdigest()[:12]))
+        json.dump({'property': ctx.prop, 'kind': 'crash', 'detail': 'the process died with a fatal runtime error (not recoverable): ' + crash,
+                   'case': {'line': json.loads(line), 'stage': name, 'package': 'v4' if legacy else 'v5'}}, open(path, 'w'), indent=1)
+        print('VIOLATION property=%s replay=%s' % (ctx.prop, path))
+        print('  kind=crash the call killed the process: ' + crash)
+        ctx.violations += 1
+        ctx.cov['stages'].append({'stage': name, 'fatal_crash': crash})
+        return
     if p2.returncode not in (0, 1, 3):
         raise Broken('stage %s: replayer failed (exit %d): %s' % (name, p2.returncode, err[-2000:]))
     log = open(tlclog).read() if os.path.exists(tlclog) else ''
@@ -81,6 +100,32 @@ def run_A(ctx, module, name, consts, invariants=(), properties=(), simulate=None
                               'executions_of_real_code': summ['counters'].get('executions', 0),
                               'constants': consts, 'invariants': list(invariants), 'properties': list(properties),
                               'mode': 'simulate' if simulate else 'exhaustive', 'wall_s': round(time.time() - t0, 1)})
+
+
+def find_crash_input(ctx, name, tlc_cmd, rargs, renv):
+    """Re-run a stage with a journal; return (line, first line of the crash message) of an input that alone kills the process."""
+    jdir = os.path.join(ctx.scratch, 'journal_' + name)
+    os.makedirs(jdir, exist_ok=True)
+    p1 = subprocess.Popen(tlc_cmd, cwd=ctx.specdir(), env=ctx.env, stdout=subprocess.PIPE, stderr=subprocess.STDOUT)
+    p2 = subprocess.Popen(rargs + ['-journal', jdir], stdin=p1.stdout, stdout=subprocess.PIPE, stderr=subprocess.PIPE, text=True, env=renv)
+    p1.stdout.close()
+    p2.communicate()
+    p1.kill()
+    p1.wait()
+    single = [a for a in rargs if a != '-respell']
+    if '-tlclog' in single:
+        i = single.index('-tlclog')
+        single = single[:i] + single[i + 2:]
+    for f in sorted(os.listdir(jdir)):
+        line = open(os.path.join(jdir, f)).read().strip()
+        if not line:
+            continue
+        for extra in ([], ['-respell']):
+            p = subprocess.run(single + extra + ['-workers', '1'], input=line + '\n', capture_output=True, text=True, env=renv)
+            m = re.search(r'^(fatal error: .*|runtime: goroutine stack exceeds.*)$', p.stderr, re.M)
+            if p.returncode == 2 and m:
+                return line, m.group(1)
+    return None
 
 
 def A_patch(name, seeds, opts, vals, vals2, maxops, kinds=ALLKINDS, wide=1, invariants=(), properties=(), **kw):
@@ -123,7 +168,8 @@ def validate_trace(ctx, name, trace_path, index, mode, legacy):
         rounds += 1
         part = 'trace_%s_%d.ndjson' % (name, rounds)
         open(os.path.join(spec, part), 'w').write('\n'.join(events[offset:]) + '\n')
-        cfg = ctx.write_cfg('trace_%s_%d' % (name, rounds), 'TSpec', {'TraceFile': '"%s"' % part, 'Mode': '"%s"' % mode},
+        cfg = ctx.write_cfg('trace_%s_%d' % (name, rounds), 'TSpec',
+                            {'TraceFile': '"%s"' % part, 'Mode': '"%s"' % mode, 'MaxDepth': 10000, 'MaxNest': 10000},
                             invariants=('NoMismatch',), postcondition='Accepted')
         p = subprocess.run(['timeout', '3000'] + ctx.tlc_cmd('TraceApi', cfg, workers=1), cwd=spec, env=ctx.env,
                            capture_output=True, text=True)
@@ -530,9 +576,9 @@ PLANS.update({
         'quick': [A_cli('cli3', 3)],
         'thorough': [A_cli('cli4', 4)],
         'rule': 'TLC explores the state machine of the command (parse flags, load and decode each file, read stdin, apply in order, print or '
-                'fatal) for every list of up to 3 (quick) / 4 (thorough) -p arguments over 9 kinds of file (four patches of which two do not '
-                'commute and one fails in its second operation, the empty patch, a non-patch, malformed JSON, a missing path, a directory) x 3 '
-                'documents on stdin, checks NoPartialOutput / OutputIsFold / FailsCleanly on the specification; every scenario is '
+                'fatal) for every list of up to 3 (quick) / 4 (thorough) -p arguments over 10 kinds of file (five patches of which two do not '
+                'commute and one fails in its second operation, the empty patch, a non-patch, malformed JSON, a missing path, a directory) x 4 '
+                'documents on stdin (one patch value and one document contain % signs), checks NoPartialOutput / OutputIsFold / FailsCleanly on the specification; every scenario is '
                 'materialised and run against the binary built from v5/cmd/json-patch: exit status, empty stdout and non-empty stderr on '
                 'failure, stdout equal to the specification document and byte-equal to the in-process fold of the library on success',
         'exhaustive': True,
@@ -688,3 +734,10 @@ _addB('C18', [B_trace('tbL', 'patch', 500, legacy=True)], [B_trace('tbL', 'patch
       _TB % ('patch traces of the staged legacy package', 'note: the trace specification applies the v5 dialect; see C18 stage notes'))
 _addB('C04', [B_trace('tb', 'patch', 400), B_trace('tbx', 'mix', 600)], [B_trace('tb', 'patch', 8000), B_trace('tbx', 'mix', 8000)],
       _TB % ('patch, merge, create, compose and equal traces', 'every call under recover(): a panic is recorded in the event and rejected'))
+_addB('C16', [B_trace('ts', 'scan', 600)], [B_trace('ts', 'scan', 12000)],
+      'texts of up to a few hundred bytes (random values in random spellings: escapes incl. surrogate pairs, numbers such as 1e400 and -0, nesting, '
+      'half of them damaged by one byte-level edit) are given to the codec; TLC evaluates the scanner automaton AND the grammar on each text and '
+      'rejects the trace unless Valid/Unmarshal/Compact/Indent agree with them')
+_addB('C17', [B_trace('ts', 'scan', 600)], [B_trace('ts', 'scan', 12000)],
+      'the same texts: the recorded Compact, Indent, HTMLEscape and compact-with-escaping outputs must equal the specification transducers byte for '
+      'byte, decode-then-encode must reproduce the parsed value, UnmarshalWithKeys must report the keys in document order')
